@@ -107,6 +107,7 @@ type ccStore interface {
 	Get(c cid.Cid) ([]byte, error, bool)
 	Keys() ([]cid.Cid, error, bool)
 	Roots() ([]cid.Cid, error, bool)
+	GetSize(c cid.Cid) (int, error, bool)
 	Finalize() error
 	Bytes() []byte
 }
@@ -137,6 +138,10 @@ func (s *ccRW) Keys() ([]cid.Cid, error, bool) {
 	return out, nil, true
 }
 func (s *ccRW) Finalize() error { return s.bs.Finalize() }
+func (s *ccRW) GetSize(c cid.Cid) (int, error, bool) {
+	n, err := s.bs.GetSize(bg, c)
+	return n, err, true
+}
 func (s *ccRW) Roots() ([]cid.Cid, error, bool) {
 	r, err := s.bs.Roots()
 	return r, err, true
@@ -154,9 +159,10 @@ func (s *ccSC) Get(c cid.Cid) ([]byte, error, bool) {
 	d, err := s.sc.Get(bg, c.KeyString())
 	return d, err, true
 }
-func (s *ccSC) Keys() ([]cid.Cid, error, bool)  { return nil, nil, false }
-func (s *ccSC) Finalize() error                 { return s.sc.Finalize() }
-func (s *ccSC) Roots() ([]cid.Cid, error, bool) { return s.sc.Roots(), nil, true }
+func (s *ccSC) Keys() ([]cid.Cid, error, bool)     { return nil, nil, false }
+func (s *ccSC) Finalize() error                    { return s.sc.Finalize() }
+func (s *ccSC) GetSize(cid.Cid) (int, error, bool) { return 0, nil, false }
+func (s *ccSC) Roots() ([]cid.Cid, error, bool)    { return s.sc.Roots(), nil, true }
 func (s *ccSC) Bytes() []byte {
 	s.mem.mu.Lock()
 	defer s.mem.mu.Unlock()
@@ -218,6 +224,7 @@ func (s *ccDF) Has(c cid.Cid) (bool, error)         { return s.d.Has(bg, c.KeySt
 func (s *ccDF) Get(c cid.Cid) ([]byte, error, bool) { return nil, nil, false }
 func (s *ccDF) Keys() ([]cid.Cid, error, bool)      { return nil, nil, false }
 func (s *ccDF) Finalize() error                     { return s.d.Close() }
+func (s *ccDF) GetSize(cid.Cid) (int, error, bool)  { return 0, nil, false }
 func (s *ccDF) Roots() ([]cid.Cid, error, bool)     { return nil, nil, false }
 func (s *ccDF) Bytes() []byte {
 	s.buf.mu.Lock()
@@ -396,6 +403,20 @@ func execOp(rec *ccRecorder, st ccStore, g int, run int, op ccOp) {
 		} else {
 			res = fmt.Sprint(h)
 		}
+	case "getsize": // reported like get: found / notfound / err
+		n, err, ok := st.GetSize(b.Cid())
+		switch {
+		case !ok:
+			res = "skip"
+		case err != nil && isNotFound(err):
+			res = "notfound"
+		case err != nil:
+			res = "err"
+		case n == len(b.RawData()):
+			res = "found"
+		default:
+			res = "corrupt"
+		}
 	case "roots":
 		rs, err, ok := st.Roots()
 		switch {
@@ -570,7 +591,7 @@ func runConcStress(args []string) int {
 			for g := range progs {
 				n := 3 + rng.Intn(10)
 				for i := 0; i < n; i++ {
-					ops := []string{"put", "put", "has", "get", "keys", "roots"}
+					ops := []string{"put", "put", "has", "get", "keys", "roots", "getsize"}
 					progs[g] = append(progs[g], ccOp{ops[rng.Intn(len(ops))], 1 + rng.Intn(nkeys)})
 				}
 				if g == finalizer {
